@@ -1724,6 +1724,7 @@ def enumerate_config(ctx, base, limit=None):
         case = dict(base)
         case['sched'] = prefix
         _LAST.pop('trace', None)
+        ctx.label('enumerated')
         ctx.run_case(case, reraise=False)
         runs += 1
         trace = _LAST.get('trace')
@@ -1789,7 +1790,10 @@ def _run_shard(ctx, spec):
 
 def health(agg, tier):
     lab = agg['labels']
-    n = max(1, agg['evals'] - lab.get('e2e', 0))
+    # the distribution gates describe the random schedules; the exhaustively enumerated two-operation configurations of
+    # the thorough tier have their own, fixed mix (no crashes, half of them cross-fs) and are counted separately
+    enumerated = lab.get('enumerated', 0)
+    n = max(1, agg['evals'] - lab.get('e2e', 0) - enumerated)
     probs = []
     for name, frac in (('crash', 0.06), ('crash-inside-store', 0.01), ('cross-fs', 0.25), ('same-fs', 0.25),
                        ('purge-actor', 0.15), ('purged-an-entry', 0.10), ('init:truncated', 0.05),
